@@ -474,7 +474,9 @@ func (rw *rewriter) lockCall(ce *ast.CallExpr) (recv ast.Expr, method string, ok
 	if !isSel || len(ce.Args) != 0 {
 		return
 	}
-	if sel.Sel.Name != "Lock" && sel.Sel.Name != "Unlock" {
+	switch sel.Sel.Name {
+	case "Lock", "Unlock", "RLock", "RUnlock":
+	default:
 		return
 	}
 	s := rw.info.Selections[sel]
@@ -487,7 +489,8 @@ func (rw *rewriter) lockCall(ce *ast.CallExpr) (recv ast.Expr, method string, ok
 	}
 	full := fn.FullName()
 	switch full {
-	case "(*sync.Mutex).Lock", "(*sync.Mutex).Unlock",
+	case "(*sync.RWMutex).Lock", "(*sync.RWMutex).Unlock", "(*sync.RWMutex).RLock", "(*sync.RWMutex).RUnlock",
+		"(*sync.Mutex).Lock", "(*sync.Mutex).Unlock",
 		"(sync.Locker).Lock", "(sync.Locker).Unlock",
 		"(" + modPath + ".Locker).Lock", "(" + modPath + ".Locker).Unlock":
 	default:
@@ -553,9 +556,14 @@ func (rw *rewriter) post(c *astutil.Cursor) bool {
 			break
 		}
 		if recv, m, ok := rw.lockCall(tn); ok {
-			if m == "Lock" {
+			switch m {
+			case "Lock":
 				c.Replace(call(rw.rt("Lock"), recv, rw.site(tn)))
-			} else {
+			case "RLock":
+				c.Replace(call(rw.rt("RLock"), recv, rw.site(tn)))
+			case "RUnlock":
+				c.Replace(call(rw.rt("RUnlock"), recv))
+			default:
 				c.Replace(call(rw.rt("Unlock"), recv))
 			}
 		}
